@@ -2,7 +2,7 @@
    Only the property theorems; proofs in Proofs/RepairProofs.v and by computation on Gen/. *)
 From Coq Require Import String Permutation.
 From StgV Require Import Model.CmdSpec Model.RepairSpec Gen.CmdTable Proofs.RepairProofs Proofs.RepairNoopProofs
-  Proofs.PlainOlderStep Proofs.RepairNoopReach.
+  Proofs.PlainOlderStep Proofs.RepairNoopTwice Proofs.RepairNoopReach.
 
 (* repair is a pure rearrangement of the existing patches: none is dropped, none invented *)
 Theorem C13_appliedness_is_permutation :
@@ -112,19 +112,33 @@ Theorem C13_repair_noop_needs_acyclic_store :
 Proof. exact repair_consistent_noop_refuted. Qed.
 Print Assumptions C13_repair_noop_needs_acyclic_store.
 
-(* a second repair changes nothing (reachable worlds; that the second run succeeds is a
-   premise: partial) *)
-Theorem C13_repair_idempotent_partial :
+(* repair is idempotent: after a successful repair a second one succeeds and changes nothing -
+   same lists, same commit for every patch, same head, branch where it was (the age condition is
+   the invariant above) *)
+Theorem C13_repair_idempotent :
   forall lower_s, LowerOK lower_s ->
-  forall t cs w1 w2,
+  forall w w1,
+    Inv6 w -> prev_decreasing (w_objs w) -> plain_parents_older (w_objs w) ->
+    run_repair lower_s w = (w1, X0) ->
+    exists w2 st1 st2,
+      run_repair lower_s w1 = (w2, X0)
+      /\ cur_state w1 = Some st1 /\ cur_state w2 = Some st2 /\ same_stack st2 st1
+      /\ w_branch w2 = w_branch w1.
+Proof. exact repair_idempotent. Qed.
+Print Assumptions C13_repair_idempotent.
+
+(* ... for every world reached from the initial world by commands, with nothing assumed *)
+Theorem C13_repair_idempotent_reachable :
+  forall lower_s, LowerOK lower_s ->
+  forall t cs w1,
     forallb in_scope cs = true ->
     run_repair lower_s (run lower_s (init_world t) cs) = (w1, X0) ->
-    run_repair lower_s w1 = (w2, X0) ->
-    exists st1 st2,
-      cur_state w1 = Some st1 /\ cur_state w2 = Some st2 /\ same_stack st2 st1
+    exists w2 st1 st2,
+      run_repair lower_s w1 = (w2, X0)
+      /\ cur_state w1 = Some st1 /\ cur_state w2 = Some st2 /\ same_stack st2 st1
       /\ w_branch w2 = w_branch w1.
-Proof. exact repair_idempotent_reachable. Qed.
-Print Assumptions C13_repair_idempotent_partial.
+Proof. exact repair_idempotent_reachable_full. Qed.
+Print Assumptions C13_repair_idempotent_reachable.
 
 (* the premises are satisfiable: two applied patches and an unapplied one, repair succeeds *)
 Theorem C13_repair_noop_nonvacuous :
